@@ -60,7 +60,7 @@ func (o obs) String() string {
 	case "done":
 		return "ok"
 	case "item":
-		return fmt.Sprintf("item %d", o.v)
+		return "item " + itemName(o.v)
 	case "closed":
 		return "closed"
 	case "full":
@@ -142,9 +142,66 @@ func guarded(f func() obs) (obs, bool) {
 	}
 }
 
+// Items are int64 ids; a few negative ids stand for boundary VALUES of the interface{} item type:
+//
+//	-1 untyped nil, -2 a typed nil pointer (*int)(nil), -3 the empty string, -4 int(0), -5 struct{}{}
+//
+// They are items like any other (the queues store what they are given); SyncQueue and PriQueue never get -1 because
+// their API uses nil as the "closed / empty" answer (SyncQueue.Pop, PriQueue.Pop) - see level_note.
+func valOf(id int64) interface{} {
+	switch id {
+	case -1:
+		return nil
+	case -2:
+		return (*int)(nil)
+	case -3:
+		return ""
+	case -4:
+		return int(0)
+	case -5:
+		return struct{}{}
+	}
+	return id
+}
+
+func itemName(id int64) string {
+	switch id {
+	case -1:
+		return "nil"
+	case -2:
+		return "(*int)(nil)"
+	case -3:
+		return `""`
+	case -4:
+		return "int(0)"
+	case -5:
+		return "struct{}{}"
+	}
+	return fmt.Sprint(id)
+}
+
 func itemOf(v interface{}) obs {
-	if x, ok := v.(int64); ok {
-		return obs{"item", x}
+	switch x := v.(type) {
+	case nil:
+		return obs{"item", -1}
+	case int64:
+		if x > 0 {
+			return obs{"item", x}
+		}
+	case *int:
+		if x == nil {
+			return obs{"item", -2}
+		}
+	case string:
+		if x == "" {
+			return obs{"item", -3}
+		}
+	case int:
+		if x == 0 {
+			return obs{"item", -4}
+		}
+	case struct{}:
+		return obs{"item", -5}
 	}
 	return obs{"other", otherValue}
 }
@@ -175,21 +232,29 @@ type queue interface {
 // shadow: what the harness knows from the results it saw (never from the model)
 type shadow struct {
 	n      [2]int
-	level  map[int64]int
+	level  map[int64][2]int // how many pending copies of this item per level (boundary values may be queued more than once)
 	closed bool
 	cap    [2]int
 }
 
-func newShadow(c0, c1 int) *shadow { return &shadow{level: map[int64]int{}, cap: [2]int{c0, c1}} }
+func newShadow(c0, c1 int) *shadow { return &shadow{level: map[int64][2]int{}, cap: [2]int{c0, c1}} }
 func (s *shadow) accepted(x int64, lv int) {
 	s.n[lv]++
-	s.level[x] = lv
+	c := s.level[x]
+	c[lv]++
+	s.level[x] = c
 }
 func (s *shadow) handedOut(r obs) {
 	if r.tag == "item" {
-		if lv, ok := s.level[r.v]; ok && s.n[lv] > 0 {
+		c := s.level[r.v]
+		lv := 0 // control messages come out before requests
+		if c[0] == 0 {
+			lv = 1
+		}
+		if c[lv] > 0 && s.n[lv] > 0 {
 			s.n[lv]--
-			delete(s.level, r.v)
+			c[lv]--
+			s.level[r.v] = c
 		}
 	}
 }
@@ -212,11 +277,17 @@ type pipeQ struct {
 	sh                  *shadow
 }
 
-func newPipe(kind string, n int) *pipeQ {
+// noOpt: build q.Q without the WithSize option (n must then be 0: that is what "no option" means)
+func newPipe(kind string, n int, noOpt bool) *pipeQ {
 	p := &pipeQ{kind: kind, sh: newShadow(n, 0)}
 	switch kind {
 	case "q":
-		x := q.NewQ(q.WithSize(n))
+		var x *q.Q
+		if noOpt {
+			x = q.NewQ()
+		} else {
+			x = q.NewQ(q.WithSize(n))
+		}
 		p.add, p.prior, p.addAnyway, p.pop, p.popAnyway, p.closeFn = x.AddReq, x.AddPriorReq, x.AddReqAnyway, x.Pop, x.PopAnyway, x.Close
 		p.eClosed, p.eFull, p.eSy = q.ErrClosed, q.ErrReqQFull, q.ErrSync
 	case "async":
@@ -259,7 +330,7 @@ func (p *pipeQ) popObs(v interface{}, err error) obs {
 func (p *pipeQ) apply(o op) (r obs, hung bool) {
 	switch o.code {
 	case "a":
-		r = direct(func() obs { return p.errObs(p.add(o.x)) })
+		r = direct(func() obs { return p.errObs(p.add(valOf(o.x))) })
 		if r.tag == "done" {
 			p.sh.accepted(o.x, 0)
 		}
@@ -267,12 +338,12 @@ func (p *pipeQ) apply(o op) (r obs, hung bool) {
 		if p.sh.addAnywayWouldBlock(0) {
 			return obs{"notissued", 0}, false
 		}
-		r, hung = guarded(func() obs { return p.errObs(p.addAnyway(o.x, time.Millisecond)) })
+		r, hung = guarded(func() obs { return p.errObs(p.addAnyway(valOf(o.x), time.Millisecond)) })
 		if r.tag == "done" {
 			p.sh.accepted(o.x, 0)
 		}
 	case "p":
-		r = direct(func() obs { return p.errObs(p.prior(o.x)) })
+		r = direct(func() obs { return p.errObs(p.prior(valOf(o.x))) })
 		if r.tag == "done" {
 			p.sh.accepted(o.x, 0)
 		}
@@ -320,19 +391,19 @@ func (p *pipeQ) goOp(o op) string {
 	switch o.code {
 	case "a":
 		if async {
-			return fmt.Sprintf("Add(%d)", o.x)
+			return fmt.Sprintf("Add(%s)", itemName(o.x))
 		}
-		return fmt.Sprintf("AddReq(%d)", o.x)
+		return fmt.Sprintf("AddReq(%s)", itemName(o.x))
 	case "w":
 		if async {
-			return fmt.Sprintf("AddAnyway(%d)", o.x)
+			return fmt.Sprintf("AddAnyway(%s)", itemName(o.x))
 		}
-		return fmt.Sprintf("AddReqAnyway(%d)", o.x)
+		return fmt.Sprintf("AddReqAnyway(%s)", itemName(o.x))
 	case "p":
 		if async {
-			return fmt.Sprintf("AddPrior(%d)", o.x)
+			return fmt.Sprintf("AddPrior(%s)", itemName(o.x))
 		}
-		return fmt.Sprintf("AddPriorReq(%d)", o.x)
+		return fmt.Sprintf("AddPriorReq(%s)", itemName(o.x))
 	case "o":
 		return "Pop()"
 	case "y":
@@ -350,8 +421,18 @@ type mqQ struct {
 	sh *shadow
 }
 
-func newMQ(cm, rm int) *mqQ {
-	return &mqQ{x: mq.NewMQ(mq.WithQCtrlSize(cm), mq.WithQReqSize(rm)), sh: newShadow(cm, rm)}
+func newMQ(cm, rm int, noC, noR bool) *mqQ {
+	var opts []mq.Option
+	if !noR && noC { // also vary the order in which the options are given
+		opts = append(opts, mq.WithQReqSize(rm))
+	}
+	if !noC {
+		opts = append(opts, mq.WithQCtrlSize(cm))
+	}
+	if !noR && !noC {
+		opts = append(opts, mq.WithQReqSize(rm))
+	}
+	return &mqQ{x: mq.NewMQ(opts...), sh: newShadow(cm, rm)}
 }
 func (m *mqQ) errObs(err error) obs {
 	switch err {
@@ -382,28 +463,28 @@ func (m *mqQ) apply(o op) (r obs, hung bool) {
 	}
 	switch o.code {
 	case "ac":
-		r = direct(func() obs { return m.errObs(m.x.AddCtrl(o.x)) })
+		r = direct(func() obs { return m.errObs(m.x.AddCtrl(valOf(o.x))) })
 		acc(0)
 	case "wc":
 		if m.sh.addAnywayWouldBlock(0) {
 			return obs{"notissued", 0}, false
 		}
-		r, hung = guarded(func() obs { return m.errObs(m.x.AddCtrlAnyway(o.x, time.Millisecond)) })
+		r, hung = guarded(func() obs { return m.errObs(m.x.AddCtrlAnyway(valOf(o.x), time.Millisecond)) })
 		acc(0)
 	case "pc":
-		r = direct(func() obs { return m.errObs(m.x.AddPriorCtrl(o.x)) })
+		r = direct(func() obs { return m.errObs(m.x.AddPriorCtrl(valOf(o.x))) })
 		acc(0)
 	case "ar":
-		r = direct(func() obs { return m.errObs(m.x.AddReq(o.x)) })
+		r = direct(func() obs { return m.errObs(m.x.AddReq(valOf(o.x))) })
 		acc(1)
 	case "wr":
 		if m.sh.addAnywayWouldBlock(1) {
 			return obs{"notissued", 0}, false
 		}
-		r, hung = guarded(func() obs { return m.errObs(m.x.AddReqAnyway(o.x, time.Millisecond)) })
+		r, hung = guarded(func() obs { return m.errObs(m.x.AddReqAnyway(valOf(o.x), time.Millisecond)) })
 		acc(1)
 	case "pr":
-		r = direct(func() obs { return m.errObs(m.x.AddPriorReq(o.x)) })
+		r = direct(func() obs { return m.errObs(m.x.AddPriorReq(valOf(o.x))) })
 		acc(1)
 	case "o", "y":
 		if m.sh.popWouldBlock() {
@@ -452,7 +533,7 @@ func (m *mqQ) coqOp(o op) string {
 }
 func (m *mqQ) goOp(o op) string {
 	if mqHasArg(o.code) {
-		return fmt.Sprintf("%s(%d)", mqGo[o.code], o.x)
+		return fmt.Sprintf("%s(%s)", mqGo[o.code], itemName(o.x))
 	}
 	return mqGo[o.code] + "()"
 }
@@ -468,7 +549,7 @@ func newSync() *syncQ { return &syncQ{x: syncq.NewSyncQueue(), sh: newShadow(0, 
 func (s *syncQ) apply(o op) (r obs, hung bool) {
 	switch o.code {
 	case "u":
-		r = direct(func() obs { s.x.Push(o.x); return obs{"done", 0} })
+		r = direct(func() obs { s.x.Push(valOf(o.x)); return obs{"done", 0} })
 		// the only thing a Push shows is that it returned; whether the item was taken is what the following pops show.
 		// The property says a closed queue drops it, so the harness expects it to be there exactly when Close was not called.
 		if r.tag == "done" && !s.sh.closed {
@@ -527,7 +608,7 @@ func (s *syncQ) coqOp(o op) string {
 func (s *syncQ) goOp(o op) string {
 	switch o.code {
 	case "u":
-		return fmt.Sprintf("Push(%d)", o.x)
+		return fmt.Sprintf("Push(%s)", itemName(o.x))
 	case "o":
 		return "Pop()"
 	case "t":
@@ -605,9 +686,9 @@ func (p *priQ) goOp(o op) string {
 func (p *pipeQ) applyRaw(o op) (obs, bool) {
 	switch o.code {
 	case "a":
-		return direct(func() obs { return p.errObs(p.add(o.x)) }), false
+		return direct(func() obs { return p.errObs(p.add(valOf(o.x))) }), false
 	case "p":
-		return direct(func() obs { return p.errObs(p.prior(o.x)) }), false
+		return direct(func() obs { return p.errObs(p.prior(valOf(o.x))) }), false
 	case "y":
 		return direct(func() obs { return p.popObs(p.popAnyway()) }), false
 	case "c":
@@ -618,13 +699,13 @@ func (p *pipeQ) applyRaw(o op) (obs, bool) {
 func (m *mqQ) applyRaw(o op) (obs, bool) {
 	switch o.code {
 	case "ac":
-		return direct(func() obs { return m.errObs(m.x.AddCtrl(o.x)) }), false
+		return direct(func() obs { return m.errObs(m.x.AddCtrl(valOf(o.x))) }), false
 	case "pc":
-		return direct(func() obs { return m.errObs(m.x.AddPriorCtrl(o.x)) }), false
+		return direct(func() obs { return m.errObs(m.x.AddPriorCtrl(valOf(o.x))) }), false
 	case "ar":
-		return direct(func() obs { return m.errObs(m.x.AddReq(o.x)) }), false
+		return direct(func() obs { return m.errObs(m.x.AddReq(valOf(o.x))) }), false
 	case "pr":
-		return direct(func() obs { return m.errObs(m.x.AddPriorReq(o.x)) }), false
+		return direct(func() obs { return m.errObs(m.x.AddPriorReq(valOf(o.x))) }), false
 	case "y":
 		return direct(func() obs { return m.popObs(m.x.PopAnyway()) }), false
 	case "c":
@@ -635,7 +716,7 @@ func (m *mqQ) applyRaw(o op) (obs, bool) {
 func (s *syncQ) applyRaw(o op) (obs, bool) {
 	switch o.code {
 	case "u":
-		return direct(func() obs { s.x.Push(o.x); return obs{"done", 0} }), false
+		return direct(func() obs { s.x.Push(valOf(o.x)); return obs{"done", 0} }), false
 	case "t":
 		return direct(func() obs {
 			v, ok := s.x.TryPop()
